@@ -37,7 +37,15 @@ def shapes():
   def s_tinylog(r):
     from vizier import pyvizier as vz
     r.add_float_param('x', 1e-200, 1e-150, scale_type=vz.ScaleType.LOG); r.add_float_param('y', 1e-200, 1e-150, scale_type=vz.ScaleType.REVERSE_LOG)
-  return {'unit': s_unit, 'neg': s_neg, 'log': s_log, 'int': s_int, 'disc': s_disc, 'cat': s_cat, 'mixed': s_mixed, 'single': s_single,
+  # default values (inside the domain; one outside: must be refused, not handed out) and a log scale that starts at zero
+  def s_defaults(r):
+    r.add_float_param('x', 0.0, 1.0, default_value=0.25); r.add_int_param('n', 0, 5, default_value=0); r.add_categorical_param('c', ['a', 'b'], default_value='b')
+    r.add_discrete_param('d', [1, 2, 4], default_value=4)
+  def s_baddefault(r): r.add_float_param('x', 0.0, 1.0, default_value=5.0); r.add_float_param('y', 0.0, 1.0)
+  def s_logzero(r):
+    from vizier import pyvizier as vz
+    r.add_float_param('x', 0.0, 1.0, scale_type=vz.ScaleType.LOG); r.add_float_param('y', 0.0, 1.0)
+  return {'defaults': s_defaults, 'baddefault': s_baddefault, 'logzero': s_logzero, 'unit': s_unit, 'neg': s_neg, 'log': s_log, 'int': s_int, 'disc': s_disc, 'cat': s_cat, 'mixed': s_mixed, 'single': s_single,
           'bool': s_bool, 'big': s_big, 'tiny': s_tiny, 'bin': s_bin, 'f32edge': s_f32edge, 'hugelog': s_hugelog, 'tinylog': s_tinylog}
 
 
@@ -122,6 +130,13 @@ def algorithms():
       'NSGA2': dict(f=lambda p, s: nsga2.NSGA2Designer(p, population_size=6, first_survival_after=4, seed=s), randomised=True, restartable=True, metrics=2,
                     state=True),
   }
+  try:
+    from vizier._src.algorithms.designers import harmonica
+    # boolean spaces only, one suggestion at a time, regime change after 10 completed trials: its own schedule
+    algos['HARMONICA'] = dict(f=lambda p, s: harmonica.HarmonicaDesigner(p), randomised=False, restartable=False,
+                              only={'bin', 'bool', 'mixed', 'cat', 'single'}, fixed_sched=tuple(['S1', 'CF'] * 12 + ['S1', 'CI', 'S1']))
+  except Exception:  # pylint: disable=broad-except
+    pass
   try:
     from vizier._src.algorithms.designers import cmaes
     algos['CMA_ES'] = dict(f=lambda p, s: cmaes.CMAESDesigner(p, seed=s), randomised=True, restartable=True, only={'neg', 'log', 'f32edge'})
@@ -371,9 +386,11 @@ def collect(ctx, which):
         prob = problem(shape, algo.get('metrics', 1))
         pool = {'C13': with_r, 'C03': with_ci + scheds, 'C14': scheds}[which]
         chosen = rng.sample(pool, min(per, len(pool)))
+        if algo.get('fixed_sched'):
+          chosen = [algo['fixed_sched']]
         # long sessions (concatenations of enumerated schedules with completions in between): evolutionary / swarm designers
         # change regime only after a dozen or more completed trials
-        if shape in LONG_SHAPES:
+        if shape in LONG_SHAPES and not algo.get('fixed_sched'):
           for _ in range(1 if not ctx.thorough else 3):
             parts = rng.sample(with_r if which == 'C13' else scheds, 4)
             long = []
